@@ -95,8 +95,18 @@ def match_known(kf, pid, ob_id=None, finding=None):
     return None
 
 
+def _out_dir():
+    """Where evidence and replay files go: /verif itself for the registered checks; the evaluation tooling (seeded / neutral patches on a
+    scratch export, VERIF_OUT_DIR set) writes elsewhere so that files produced from a modified tree never end up in the committed evidence."""
+    import os
+    from pathlib import Path
+
+    o = os.environ.get("VERIF_OUT_DIR")
+    return Path(o) if o else HERE
+
+
 def write_replay(pid, name, header: dict, code: str | None):
-    d = HERE / "replays" / pid
+    d = _out_dir() / "replays" / pid
     d.mkdir(parents=True, exist_ok=True)
     p = d / (_san(name) + ".py")
     body = ['"""Replay file written by /verif/check.py', json.dumps(header, indent=1, default=str).replace('"""', "'''"), '"""', ""]
@@ -330,8 +340,8 @@ def finish(pid, tier, seed, t0, results, lemma_results, standin_results, known, 
         wall_s=round(wall, 2),
         violations=vcount,
     )
-    (HERE / "evidence").mkdir(exist_ok=True)
-    (HERE / "evidence" / f"{pid}.json").write_text(json.dumps(ev, indent=1, default=str))
+    (_out_dir() / "evidence").mkdir(parents=True, exist_ok=True)
+    (_out_dir() / "evidence" / f"{pid}.json").write_text(json.dumps(ev, indent=1, default=str))
     print(f"property={pid} tier={tier} obligations={total} discharged={discharged} violations={vcount} known={len(seen_k)} "
           f"undecided={len(undecided)} faults={len(faults)} functions={len(functions)} wall={wall:.1f}s")
     if vcount:
